@@ -80,6 +80,11 @@ class Renamer(ast.NodeTransformer):
             def visit_FunctionDef(self, n):
                 return outer.visit_FunctionDef(n) if n is not node else self.generic_visit(n)
 
+            def visit_ExceptHandler(self, n):
+                if n.name in mapping:
+                    n.name = mapping[n.name]
+                return self.generic_visit(n)
+
             def visit_Lambda(self, n):
                 return n
 
